@@ -23,6 +23,8 @@ CONSTANTS Depth,        \* messages per behaviour
           ClassSel,     \* indices of the state classes explored
           Deep,         \* classes explored beyond depth 1 (the others stop after one message)
           PeerInits,    \* subset of {"unknown", "known"}: peer state at the start (see Preamble)
+          Cat,          \* "full": the catalogue of PeerMsgs; "votes": the directed vote vectors VoteVec (one peer, up to
+                        \* Depth votes for pairwise distinct untracked rounds, every verification class at every position)
           DeepNode      \* classes in which exploration also continues after a message that changed the ROUND state
                         \* (elsewhere only the peer state and the claims evolve: the replay can then reuse its node)
 
@@ -94,16 +96,17 @@ Step(x, ch) ==
 Next == /\ ~dead /\ bad = ""
         /\ Len(hist) - n0 < (IF k \in Deep THEN Depth ELSE 1)
         /\ (k \in DeepNode \/ s = ClassSt(k).s)
-        /\ \E x \in Catalogue(s, p) : \E ch \in OnChannels(x) :
+        /\ \E x \in (IF Cat = "votes" THEN VoteVec(s, Len(hist) - n0) ELSE Catalogue(s, p)) : \E ch \in OnChannels(x) :
               \* Votes are not explored once a +2/3 claim of this peer is on record: with a claim for block b recorded,
               \* a vote for b that CONFLICTS with the validator's first vote is tallied for b all the same
               \* (VoteSet.tla conflict_added, property C02) - KardiaNode's one-vote-per-validator sets do not
               \* represent that, and it is no concern of this property.
-              /\ (cl = {} \/ x.m.t # "vote")
+              /\ (cl = {} \/ x.m.t # "vote" \/ Cat = "votes")
               /\ Step(x, ch)
 Spec == Init /\ [][Next]_vars
 
-View == <<k, s, p, cl, pend, dead, bad, n0>>
+\* (vote vectors: the position is part of the state, so that vectors longer than the catch-up budget are generated)
+View == <<k, s, p, cl, pend, dead, bad, n0, IF Cat = "votes" THEN Len(hist) ELSE 0>>
 
 (****************************** property C18 ******************************)
 NoPanic      == bad = ""                     \* Receive and handleMsg return normally, allocation bounded
@@ -114,6 +117,9 @@ PeerStateOK  == PRSWellFormed(p)             \* every bit array of the peer stat
 \* definitely have rs.Votes.Prevotes(rs.Proposal.POLRound)"; a POL round without vote set makes MsgToProto
 \* dereference nil in a goroutine nobody recovers
 OwnStateGossipable == (s.proposal.has /\ s.proposal.pol >= 1) => s.proposal.pol \in s.rounds
+\* one peer makes the node track at most CatchupLimit rounds beyond those the node tracks of its own accord
+\* (single-peer model: everything beyond the class state's rounds was created for this peer)
+CatchupBounded == Cardinality(s.rounds \ ClassSt(k).s.rounds) <= CatchupLimit
 \* the round state changes only by handleMsg on a queued, well-formed core - never in the syncing class
 RoundStateByCoreOnly ==
   [][s' # s => /\ ~Classes[k].sync
@@ -138,7 +144,7 @@ ClassesOK ==
 ClassTable == [i \in 1..Len(Classes) |-> [n |-> Classes[i].n, me |-> Classes[i].me, sync |-> Classes[i].sync,
                                            p |-> Classes[i].p, o |-> Proj(ClassSt(i).s),
                                            inq |-> Len(ClassSt(i).inq), timer |-> ClassSt(i).timer]]
-ASSUME PrintT(ToJson([classes |-> ClassTable]))
+ASSUME PrintT(ToJson([classes |-> ClassTable, catchup |-> CatchupLimit]))
 
 \* pre: the earlier messages with what the driver needs to notice that the real node has already left the
 \* specified path there (st: peer stopped, pc / sc: peer state / round state changed)
